@@ -606,6 +606,20 @@ func (x *Exec) modHeaps(fn *ssa.Function, blocks map[*ssa.BasicBlock]bool, visit
 						}
 					}
 				case *ssa.Function:
+					if _, isIntr := intrinsics[callee.String()]; isIntr {
+						name := callee.String()
+						switch {
+						case strings.HasPrefix(name, "sync/atomic.") && len(c.Args) > 0:
+							addLoc(c.Args[0])
+						case strings.Contains(name, "Unmarshal"):
+							if t := pointeeOfIfaceArg(in); t != nil {
+								for _, k := range x.cellKeys(t) {
+									keys[k] = true
+								}
+							}
+						}
+						continue
+					}
 					ks, a := x.calleeMods(callee, visiting)
 					for k := range ks {
 						keys[k] = true
@@ -781,6 +795,8 @@ func (x *Exec) assignKeysStatic(fc *FuncContract, f *ssa.Function) []string {
 			}
 		case e.Kind == eCall && e.Name == "heap" && len(e.Args) == 1:
 			out = append(out, x.heapKeyFromText(e.Args[0]))
+		case e.Kind == eCall && e.Name == "ghost" && len(e.Args) == 1 && e.Args[0].Kind == eIdent:
+			out = append(out, "X$"+e.Args[0].Name)
 		case e.Kind == eCall && e.Name == "mapof" && len(e.Args) == 1:
 			t := typeOf(e.Args[0])
 			if mt, ok := t.Underlying().(*types.Map); t != nil && ok {
@@ -811,6 +827,8 @@ func (x *Exec) assignKeysStatic(fc *FuncContract, f *ssa.Function) []string {
 			if !found {
 				return []string{"*"}
 			}
+		case e.Kind == eIndex && e.Args[0].Kind == eIdent && x.eng.cs.Ghost[e.Args[0].Name] != "":
+			out = append(out, "X$"+e.Args[0].Name)
 		case e.Kind == eUn && e.Op == "*":
 			t := typeOf(e.Args[0])
 			if t == nil {
